@@ -36,7 +36,7 @@ RULE = (
     "times address {none,A,B} x ref {none, dangling, own, foreign} x 11 min_amount shapes x {single, many} x "
     "{input, collateral}; sampled 3-5 UTxO stores x grid; random stores of 1..80 UTxOs with amounts up to 2^62 "
     "(crossing the 50-UTxO window); one party's wallet of 49 / 50 / 51 / 52 / 64 / 100 / 300 UTxOs at the queried "
-    "address (the strict matches alone exceed the window); multi-block cases; independent blocks (2-3 blocks without an address, each pinned to its own reference or after a token only its own UTxO holds, in both name orders: a failing block that shares no candidate with the others is judged for completeness like a single one). Non-trivial = non-empty store and a constrained query; "
+    "address (the strict matches alone exceed the window); multi-block cases; independent blocks (2-3 blocks without an address, each pinned to its own reference or after a token only its own UTxO holds, in both name orders; mixed scope: a block without an address and a block drawing from the address where the same UTxO sits, and a collateral block pinned to a UTxO that holds a token: a failing block that shares no candidate with the others is judged for completeness like a single one). Non-trivial = non-empty store and a constrained query; "
     "distinct = distinct (store, queries)"
 )
 
